@@ -656,6 +656,57 @@ def run(ctx):
         if not okenc or rc2 != 0 or not os.path.isfile(src) or open(src, "rb").read() != data:
             ctx.fail("asconcrypt:file-names", "round trip by default names of a file called %r: encrypt exit %s, decrypt exit %s: %s" % (name[:40], rc, rc2, (e + e2)[-120:]))
         ctx.stat("nontrivial")
+    # paths at the system's limit (4095 bytes): with default output names the longer name cannot exist -- the tool must say so and leave the input alone, or produce a file that decrypts
+    d2 = wd()
+    dfd = os.open(d2, os.O_RDONLY)      # everything below is addressed relative to this directory: the absolute paths would be longer than the system allows
+    parts = ["d" * 255] * 15
+    for i in range(1, 16):
+        os.mkdir("/".join(parts[:i]), dir_fd=dfd)
+    deep = "/".join(parts)
+    deepfd = os.open(deep, os.O_RDONLY, dir_fd=dfd)
+
+    def wr(rel, data):
+        fd = os.open(rel, os.O_WRONLY | os.O_CREAT | os.O_TRUNC, 0o644, dir_fd=dfd)
+        os.write(fd, data)
+        os.close(fd)
+
+    def rd(rel):
+        try:
+            fd = os.open(rel, os.O_RDONLY, dir_fd=dfd)
+        except OSError:
+            return None     # gone
+        data = os.read(fd, 1 << 20)
+        os.close(fd)
+        return data
+
+    for L in (4000, 4085, 4086, 4089, 4090, 4091, 4092, 4093, 4094, 4095):
+        for mode in ("-e", "-d"):
+            rel = deep + "/" + "f" * (L - len(deep) - 1)
+            data = content(40, 1)
+            if mode == "-d":      # a genuine encrypted file under a name that does not end in .ascon: the default output name is NAME.decrypted
+                wr("t.bin", data)
+                tool([crypt, "-e", "-p", "pw", "-o", "t.enc", "t.bin"], cwd=d2)
+                os.replace("t.enc", rel, src_dir_fd=dfd, dst_dir_fd=dfd)
+                data = rd(rel)
+            else:
+                wr(rel, data)
+            before = set(os.listdir(deepfd))
+            rc, o, e = tool([crypt, mode, "-p", "pw", rel], cwd=d2)
+            after = set(os.listdir(deepfd))
+            same = rd(rel) == data
+            new = sorted(after - before)
+            okname = os.path.basename(rel) + (".ascon" if mode == "-e" else ".decrypted")
+            if not same or (rc == 0 and new != [okname]) or (rc != 0 and new):
+                ctx.fail("asconcrypt:path-limit", "%s of a file whose path has %d bytes, default output name: exit %d, input %s, new directory entries %s" % (mode, L, rc, "unchanged" if same else "MODIFIED OR GONE", [n[-12:] for n in new]))
+            for n in after | {os.path.basename(rel)}:
+                try:
+                    os.unlink(n, dir_fd=deepfd)
+                except OSError:
+                    pass
+            ctx.stat("nontrivial")
+    os.close(deepfd)
+    os.close(dfd)
+    subprocess.run(["rm", "-rf", parts[0]], cwd=d2)      # (shutil.rmtree would build paths that are too long)
     write(os.path.join(d, "p.bin"), content(50, 1))
     for args, what, leftover in (([crypt, "-e", "-p", "pw", "-o", "missing/out.enc", "p.bin"], "output in a missing directory", "missing"),
                                  ([crypt, "-e", "-p", "pw", "-o", "sub dir", "p.bin"], "output path is a directory", None),
